@@ -122,7 +122,8 @@ if len(inputMibs) < 2:
     sys.stderr.write('ERROR: MIB source and/or destination arguments not given\r\n%s\r\n' % helpMessage)
     sys.exit(EX_USAGE)
 
-dstDirectory = inputMibs.pop()
+# (as the sources: the revision lookup recognises a directory by its normalised path)
+dstDirectory = os.path.abspath(inputMibs.pop())
 
 if os.path.exists(dstDirectory) and not os.path.isdir(dstDirectory):
     sys.stderr.write('ERROR: given destination is not a directory\r\n%s\r\n' % helpMessage)
